@@ -117,8 +117,7 @@ FN_OF = [("edge_", "AigEdge::{new,node,is_negated,negate,negate_if,raw}"), ("mk_
          ("try_library_rewrite", "try_library_rewrite"), ("canary_try_library", "try_library_rewrite"), ("merge_cuts", "merge_cuts"), ("canary_merge", "merge_cuts"),
          ("compute_cut_tt", "compute_cut_tt"), ("canary_compute_cut_tt", "compute_cut_tt"), ("cell_fn", "CellKind::arity")]
 BOUNDS = {
-    "compute_cut_tt_is_cone_function_balanced_and_shared": "3 AND nodes over {const, 4 inputs} in the fixed shapes 7=(5,6),5=(1,2),6=(3,4) and 6=(1,2); symbolic polarities, symbolic cut of <= 4 leaves covering the cone; HashMap = association-list stand-in",
-    "compute_cut_tt_is_cone_function_chain_and_reconvergent": "3 AND nodes in the fixed shapes chain 5=(1,2),6=(5,3),7=(6,4); reconvergent 7=(5,6),6=(5,3); constant fanin 5=(0,1); symbolic polarities, symbolic cut of <= 4 leaves covering the cone",
+    "compute_cut_tt_is_cone_function_2_ands": "root cone of 2 symbolic AND nodes over {const, 4 inputs}, symbolic cut of <= 3 leaves covering the cone; HashMap = association-list stand-in",
 }
 
 
